@@ -227,11 +227,16 @@ func (memPool *MemPool) Conflicting(tx *wire.MsgTx) []bitcoin.Hash32 {
 	defer memPool.mutex.Unlock()
 
 	result := make([]bitcoin.Hash32, 0, 1)
+	txid := tx.TxHash()
 	// Check for conflicting inputs
 	for _, input := range tx.TxIn {
 		if list, exists := memPool.inputs[*input.PreviousOutPoint.OutpointHash()]; exists {
 			for _, hash := range list {
-				result = append(result, hash)
+				if !hash.Equal(txid) {
+					// The tx itself is still here when it wasn't removed first, which is not a
+					// conflict.
+					result = append(result, hash)
+				}
 				memPool.removeTransaction(hash)
 			}
 		}
